@@ -46,10 +46,37 @@ def check_module(ctx, funcs, strat, k, sc, pid="C12", c13=None, via_rows=False, 
             ctx.case(spec, False, ["nothing-traced"])
             return
         hostile, nested = sigsynth.uses_hostile(funcs), sigsynth.uses_nested(funcs)
+        # every third case: a SECOND module with the same source (hence same-named classes) whose traced subset is the
+        # complement, stubbed in the same call - each module's stub must hold its own functions only
+        name2 = path2 = None
+        traces_all = list(traces)
+        if len(funcs) % 3 == 0 or len([f for f in funcs if f["is_traced"]]) >= 3:
+            import copy
+            funcs2 = copy.deepcopy(funcs)
+            for f2 in funcs2:
+                f2["is_traced"] = not f2["is_traced"]
+            if not any(f2["is_traced"] for f2 in funcs2):
+                funcs2[0]["is_traced"] = True
+            name2, path2 = sc.new_module(src, stem="mtv_sigb")
+            mod2 = importlib.import_module(name2)
+            traces2, live2 = sigsynth.traces_for(mod2, funcs2, k)
+            traces_all = traces2[: len(traces2) // 2] + list(traces) + traces2[len(traces2) // 2:]
         try:
-            text = build_module_stubs_from_traces(traces, k, strat, rewriter=rewriter)[name].render()
+            stubs = build_module_stubs_from_traces(traces_all, k, strat, rewriter=rewriter)
+            text = stubs[name].render()
+            if name2 is not None:
+                text2 = stubs[name2].render() if name2 in stubs else ""
+                got2 = set(stubread.read_stub(text2, vars(mod2))["funcs"]) if text2 else set()
+                if not (sigsynth.uses_hostile(funcs2) or nested) and got2 != set(live2):
+                    return ctx.fail(f"{pid}/function-set-differs", spec + ["two-modules"], f"second module of the same build: stub has {sorted(got2)}, traced {sorted(live2)}\n{text2}")
+                ctx.label("two-modules-one-build")
+        except core.Violation:
+            raise
         except Exception as e:
             return ctx.fail(f"{pid}/stub-generation-raises:{type(e).__name__}", spec, f"{e!r}\n{src}")
+        finally:
+            if name2 is not None:
+                sc.drop(name2, path2)
         wrapped = any(l.rstrip().endswith("(") for l in text.splitlines())
         stub = stubread.read_stub(text, vars(mod))
         nt = any(len({p["kind"] for p in f["ps"]}) + bool(f["varargs"]) + bool(f["varkw"]) >= 2 or f["where"] not in ("top", "async", "gen")
